@@ -5,7 +5,9 @@
     step (m = the initial stored mass, added to the first element) and [None]
     afterwards (the copied value is passed through unchanged).  The model has no
     time-step parameter: the kg/s input is copied into the output labelled kg.
-    On an empty series the Go code indexes element 0 and panics. *)
+    On an empty series nothing happens: [if inflowMass.Len1() == 0 { return
+    initialStoredMass }], i.e. the machine is still in state [Some m] and packs
+    to m; after at least one step the packed state is 0.0. *)
 From Coq Require Import ZArith List.
 From OW Require Import Base.Arith Base.Mealy Kernels.C12Common.
 Import ListNotations.
@@ -20,8 +22,10 @@ Section K.
     | None => (None, inflowMass)
     end.
 
-  (** the packed final state: storedMass = 0.0 *)
-  Definition trapall_pack (s : option T) : T := zero.
+  (** the packed final state: the untouched initial mass after an empty run,
+      storedMass = 0.0 after any step *)
+  Definition trapall_pack (s : option T) : T :=
+    match s with Some initialStoredMass => initialStoredMass | None => zero end.
 
   (** no params; state storedMass; inputs inflowMass inflow outflow storageVolume;
       outputs trappedMass outflowMass (never written) *)
@@ -29,11 +33,8 @@ Section K.
     : option (list (list T) * list T) :=
     match params, states, inputs with
     | [], [storedMass], [inflowMass; inflow; outflow; storageVolume] =>
-        match inflowMass with
-        | [] => None   (* trappedMass.Get([0]) on an empty array: index out of range *)
-        | _ => let (s', os) := run trapall_step (Some storedMass) inflowMass in
-               Some ([os; zeros os], [trapall_pack s'])
-        end
+        let (s', os) := run trapall_step (Some storedMass) inflowMass in
+        Some ([os; zeros os], [trapall_pack s'])
     | _, _, _ => None
     end.
 End K.
